@@ -8,16 +8,13 @@ python3-vt - <<'PY'
 import sys
 sys.path.insert(0, '/verif')
 from mirsym import dump, replay, mir
-# 1. MIR dump of every crate in scope (compiles the dependencies once into .build/mir) + parser self-test
-import os
-crates = ['deadpool', 'deadpool_runtime', 'deadpool_sync']
+crates = ['deadpool', 'deadpool_runtime', 'deadpool_sync', 'deadpool_postgres', 'deadpool_redis', 'deadpool_sqlite', 'deadpool_r2d2', 'deadpool_diesel']
 p = dump.Program()
 for c in crates:
     p.add_crate(c)
 n = p.selftest()
-print(f'setup: MIR dumped for {crates}: {len(p.fns)} bodies, {len(p.shims)} drop shims, {n} blocks parsed, {p.dump_s:.1f} s')
-# 2. native replay driver
-replay.build_driver()
-print('setup: native replay driver built')
+print(f'setup: MIR dumped for {len(crates)} crates: {len(p.fns)} bodies, {len(p.shims)} drop shims, {n} blocks parsed, {p.dump_s:.1f} s')
+replay.build_driver(); replay.build_driver_pg(); replay.build_driver_sync()
+print('setup: native replay drivers built')
 PY
 echo "setup: ok"
